@@ -197,6 +197,42 @@ let handle toks =
     let sh v = (match v with Z0 -> "0x0" | _ -> "hash " ^ hz (Z.sub v tag)) in
     sh (op_BLOCKHASH gh (zs number) (zs num)) ^ " s=" ^ sh (spec_BLOCKHASH gh (zs number) (zs num))
   | ["memcall"; io; is; ro; rs] -> show_one (run_memorySize (memoryCall (zs io) (zs is) (zs ro) (zs rs)))
+  (* ---- fourth wave: a whole memory step (memory size, gas, resize, instruction body), any operands ---- *)
+  | "memrun" :: kind :: avail :: mem :: last :: args ->
+    let mm = zb mem and la = zs last and av = zs avail in
+    let sh3 = function Ok ((m, g), l) -> "ok " ^ hex_of_zbytes m ^ " " ^ hz g ^ " " ^ hz l | Err _ -> "err" | Panic -> "panic" in
+    let sh4v = function Ok (((v, m), g), l) -> "ok " ^ hz v ^ " " ^ hex_of_zbytes m ^ " " ^ hz g ^ " " ^ hz l | Err _ -> "err" | Panic -> "panic" in
+    let sh4d = function Ok (((d, m), g), l) -> "ok " ^ hex_of_zbytes d ^ " " ^ hex_of_zbytes m ^ " " ^ hz g ^ " " ^ hz l | Err _ -> "err" | Panic -> "panic" in
+    (match kind, args with
+     | "mload", [off] -> sh4v (run_MLOAD av mm la (zs off))
+     | "mstore", [off; v] -> sh3 (run_MSTORE av mm la (zs off) (zs v))
+     | "mstore8", [off; v] -> sh3 (run_MSTORE8 av mm la (zs off) (zs v))
+     | "datacopy", [data; mo; dof; len] -> sh3 (run_DATACOPY av mm la (zb data) (zs mo) (zs dof) (zs len))
+     | "rdcopy", [rd; mo; dof; len] -> sh3 (run_RETURNDATACOPY av mm la (zb rd) (zs mo) (zs dof) (zs len))
+     | "sha3", [off; len] -> sh4v (run_SHA3 keccakZ av mm la (zs off) (zs len))
+     | "return", [off; len] -> sh4d (run_RETURN av mm la (zs off) (zs len))
+     | "log", [n; off; len] -> sh4d (run_LOG (zs n) av mm la (zs off) (zs len))
+     | _ -> "driver-error memrun")
+  (* a straight-line sequence on values: p:<const> pushes, o:<opcode> is an arithmetic op, DUPn, SWAPn or POP *)
+  | "seq" :: items ->
+    let step st item =
+      match st with
+      | None -> None
+      | Some s ->
+        let tag = String.sub item 0 2 and v = String.sub item 2 (String.length item - 2) in
+        if tag = "p:" then Some (zs v :: s)
+        else begin
+          let o = int_of_z (zs v) in
+          let r =
+            if o >= 0x80 && o <= 0x8f then op_DUP (z_of_int (o - 0x7f)) s
+            else if o >= 0x90 && o <= 0x9f then op_SWAP (z_of_int (o - 0x8f)) s
+            else if o = 0x50 then op_POP s
+            else exec_arith (zs v) s in
+          (match r with Ok s' -> Some s' | _ -> None)
+        end in
+    (match List.fold_left step (Some []) items with
+     | Some s -> "ok " ^ String.concat "," (List.map hz s)
+     | None -> "err")
   | _ -> "driver-error unknown-command"
 
 let () = self_test b2n; serve handle
